@@ -1,4 +1,6 @@
 import Driver.FlowFam
+import Driver.BatchFam
+import Driver.BindFam
 /-!
 # `flytdriver`: one JSON line in (`{"fam":…,"sc":…,"obs":…}`), one JSON verdict line out.
 The scenario is run through the Lean model; the property predicates (`Spec.*`) are evaluated on
@@ -14,6 +16,8 @@ def handleLine (line : String) : Json :=
     | .ok fam, .ok sc, .ok obs =>
       match fam with
       | "flow" => Driver.FlowFam.handle sc obs
+      | "gbatch" => Driver.BatchFam.handle sc obs
+      | "bind" => Driver.BindFam.handle sc obs
       | f => Json.mkObj [("badop", Json.str s!"unknown family {f}")]
     | _, _, _ => Json.mkObj [("badop", Json.str "missing fam/sc/obs")]
 
